@@ -200,20 +200,21 @@ func c14RunUnit(u c14Unit, dir string) (sig, what string) {
 }
 
 type c14E2E struct {
-	Idx     int           `json:"idx"`
-	BufReq  bool          `json:"buffer_requests"`
-	BufResp bool          `json:"buffer_responses"`
-	MaxMem  int64         `json:"max_mem"`
-	MaxReq  int64         `json:"max_request_body"`
-	MaxResp int64         `json:"max_response_body"`
-	ReqLen  int           `json:"request_len"`
-	ReqCh   int           `json:"request_chunks"`
-	RespLen int           `json:"response_len"`
-	RespCh  int           `json:"response_chunks"`
-	Gap     time.Duration `json:"gap"`
-	Status  int           `json:"status"` // the target's final status (ok, head and target-truncates endings)
-	Hints   int           `json:"hints"`  // 103 responses the target sends before it
-	Ending  string        `json:"ending"` // ok | head | target-close-before | target-truncates | client-abort-upload | client-abort-download | sse | upgrade
+	Idx        int           `json:"idx"`
+	BufReq     bool          `json:"buffer_requests"`
+	BufResp    bool          `json:"buffer_responses"`
+	MaxMem     int64         `json:"max_mem"`
+	MaxReq     int64         `json:"max_request_body"`
+	MaxResp    int64         `json:"max_response_body"`
+	ReqLen     int           `json:"request_len"`
+	ReqCh      int           `json:"request_chunks"`
+	RespLen    int           `json:"response_len"`
+	RespCh     int           `json:"response_chunks"`
+	Gap        time.Duration `json:"gap"`
+	ReqChunked bool          `json:"request_chunked"` // the client sends no Content-Length (Transfer-Encoding: chunked)
+	Status     int           `json:"status"`          // the target's final status (ok, head and target-truncates endings)
+	Hints      int           `json:"hints"`           // 103 responses the target sends before it
+	Ending     string        `json:"ending"`          // ok | head | target-close-before | target-truncates | client-abort-upload | client-abort-download | sse | upgrade
 }
 
 func c14GenE2E(rng *rand.Rand, idx int) c14E2E {
@@ -246,6 +247,7 @@ func c14GenE2E(rng *rand.Rand, idx int) c14E2E {
 	if sc.Ending == "head" {
 		sc.ReqLen, sc.ReqCh = 0, 1
 	}
+	sc.ReqChunked = sc.ReqLen > 0 && sc.Ending != "upgrade" && rng.IntN(3) == 0
 	sc.Status = pick(rng, []int{200, 200, 200, 201, 404, 500})
 	if rng.IntN(4) == 0 {
 		sc.Hints = 1 + rng.IntN(2)
@@ -446,6 +448,9 @@ func c14RunE2E(t *testing.T, run *Run, sc c14E2E) {
 	}
 	method := "POST"
 	head := fmt.Sprintf("%s /b HTTP/1.1\r\nHost: c14.example\r\nContent-Length: %d\r\n", method, len(reqBody))
+	if sc.ReqChunked {
+		head = fmt.Sprintf("%s /b HTTP/1.1\r\nHost: c14.example\r\nTransfer-Encoding: chunked\r\n", method)
+	}
 	if sc.Ending == "head" {
 		head = "HEAD /b HTTP/1.1\r\nHost: c14.example\r\n"
 		reqBody = nil
@@ -467,7 +472,14 @@ func c14RunE2E(t *testing.T, run *Run, sc c14E2E) {
 				return
 			}
 			if hi > lo {
-				if _, err := conn.Write(reqBody[lo:hi]); err != nil {
+				piece := reqBody[lo:hi]
+				if sc.ReqChunked {
+					piece = append(append([]byte(fmt.Sprintf("%x\r\n", hi-lo)), piece...), '\r', '\n')
+					if i == k-1 {
+						piece = append(piece, "0\r\n\r\n"...)
+					}
+				}
+				if _, err := conn.Write(piece); err != nil {
 					return
 				}
 				mu.Lock()
@@ -551,7 +563,7 @@ func c14RunE2E(t *testing.T, run *Run, sc c14E2E) {
 	}
 	reqTooBig := sc.BufReq && sc.MaxReq > 0 && int64(sc.ReqLen) > sc.MaxReq
 	respTooBig := sc.BufResp && sc.MaxResp > 0 && int64(sc.RespLen) > sc.MaxResp
-	class := fmt.Sprintf("e2e|req=%v|resp=%v|%s|reqBig=%v|respBig=%v|reqSpill=%v|respSpill=%v", sc.BufReq, sc.BufResp, sc.Ending, reqTooBig, respTooBig, int64(sc.ReqLen) > sc.MaxMem, int64(sc.RespLen) > sc.MaxMem)
+	class := fmt.Sprintf("e2e|req=%v|chunked=%v|resp=%v|%s|reqBig=%v|respBig=%v|reqSpill=%v|respSpill=%v", sc.BufReq, sc.ReqChunked, sc.BufResp, sc.Ending, reqTooBig, respTooBig, int64(sc.ReqLen) > sc.MaxMem, int64(sc.RespLen) > sc.MaxMem)
 	switch sc.Ending {
 	case "upgrade":
 		if resp == nil || resp.Status() != 101 || !upgradeEcho {
